@@ -3,8 +3,10 @@
            groups in order, pairs / IDs as sorted sets, error as a flag);
    prop  = the observed output is inside 0..2^zoom-1 and is, as a set, exactly the contiguous run demanded by the EXACT reference
            (integer arithmetic on the floats' dyadic values, BitAltRef.v); maxHeight < minHeight must be an error;
-   class = `bit_rounding` when the (faithful) float answer differs from the exact one but stays inside the rounding band
-           (an altitude within 2^-45 (|min|+|max|) of a cell border); anything farther away is a violation. *)
+   class = `bit_rounding` (forward) / `bit_rounding_reverse` when the (faithful) float answer differs from the exact one but stays inside the
+           rounding band of BitAltRef.v ((zoom+1) resp. 4 units of 2^-52 (|min|+|max|)); anything farther away is a violation;
+   Outside the property's quantifier (|index| >= 2^62, zooms the helpers are never called with, a helper called with max <= min) the entry
+   answers bad_case: such a case must not be generated. *)
 From Coq Require Import ZArith String List Bool Floats.
 From SID Require Import Base Str Ids Wire F64 ExactRef PointF BitAlt BitAltRef.
 Import ListNotations.
@@ -21,11 +23,14 @@ Open Scope string_scope.
   Definition dy_pair (mx mn : float) : option (dy * dy) :=
     match dyadic mn, dyadic mx with Some a, Some b => Some (a, b) | _, _ => None end.
   Definition pos_zoom (z : Z) : bool := (0 <=? z)%Z && (z <=? 35)%Z.
+  (* F64.of_Z models float64(int64) below 2^63 only; vIndex+1 must not wrap *)
+  Definition int_ok (z : Z) : bool := (Z.abs z <? 2 ^ 62)%Z.
 
   (* ---- calcBitIndex ---- *)
   Definition d_calc (args : list val) (obs : val) : verdict :=
     match args, obs with
     | [VF alt; VZ zoom; VF mx; VF mn], VZ o =>
+        if (62 <? zoom)%Z then bad_case else     (* the int64 accumulator wraps: outside every zoom the library accepts *)
         let m := calc_bit_index alt zoom mx mn in
         let corr := (m =? o)%Z in
         let rng := if (0 <=? zoom)%Z then (0 <=? o)%Z && (o <? 2 ^ zoom)%Z else (o =? 0)%Z in
@@ -45,6 +50,7 @@ Open Scope string_scope.
   Definition d_vid_to_bit (args : list val) (obs : val) : verdict :=
     match args, as_LZ obs with
     | [VZ v; VZ f; VZ oz; VF mx; VF mn], Some o =>
+        if negb (pos_zoom v && int_ok f && (oz <=? 62)%Z) then bad_case else
         let m := vid_to_bit v f oz mx mn in
         let corr := zlist_eqb m o in
         let basic := in_range oz o && contiguous o in
@@ -65,20 +71,22 @@ Open Scope string_scope.
   Definition d_bit_to_vid (args : list val) (obs : val) : verdict :=
     match args, as_LS obs with
     | [VZ vz; VZ k; VZ oz; VF mx; VF mn], Some o =>
+        (* the exported conversion calls the helper only with max > min and checked zooms: anything else is outside the quantifier *)
+        if negb (pos_zoom vz && pos_zoom oz && int_ok k && (mn <? mx)%float) then bad_case else
         match bit_to_vid vz k oz mx mn, bit_to_vid_idx vz k oz mx mn with
         | Some m, Some (q, p) =>
             let corr := same_list m o in
             match all_opt (map (parse_vstr oz) o) with
             | Some oi =>
-                (* with reversed or equal heights the helper is never called by the exported conversion: nothing is claimed *)
-                let basic := if (mn <? mx)%float then contiguous oi else true in
+                let basic := contiguous oi in
                 match dy_pair mx mn with
                 | Some (dmn, dmx) =>
-                    if range_ok_rev dmn dmx vz k && pos_zoom oz then
+                    if range_ok_rev dmn dmx vz k then
+                      (* the observed set must be the whole exact run: from the floor of the exact lower bound to the floor of the exact upper bound *)
                       let prop := basic && check_rev vz k oz dmn dmx oi in
-                      mkv corr prop (if corr && negb prop && basic && band_rev vz k oz dmn dmx p q then "bit_rounding" else "-") (of_LS m)
+                      mkv corr prop (if corr && negb prop && basic && band_rev vz k oz dmn dmx p q then "bit_rounding_reverse" else "-") (of_LS m)
                     else mkv corr basic "-" (of_LS m)
-                | None => mkv corr basic "-" (of_LS m)
+                | None => bad_case
                 end
             | None => mkv corr false "-" (of_LS m)
             end
@@ -92,6 +100,11 @@ Open Scope string_scope.
     match as_LZ (oracle "hkeys" [VZ h; VZ x; VZ y; VZ outH]) with Some l => l | None => [] end.
   Definition o_hids (oracle : oracle_t) (qz qk outH : Z) : list string :=
     match as_LS (oracle "hids" [VZ qz; VZ qk; VZ outH]) with Some l => l | None => [] end.
+
+  Definition hkeys_ok (oracle : oracle_t) (outH : Z) (i : eid) : bool :=
+    match as_LZ (oracle "hkeys" [VZ (eh i); VZ (ex i); VZ (ey i); VZ outH]) with Some _ => true | None => false end.
+  Definition hids_ok (oracle : oracle_t) (outH : Z) (qz qk : Z) : bool :=
+    match as_LS (oracle "hids" [VZ qz; VZ qk; VZ outH]) with Some _ => true | None => false end.
 
   (* pairs are compared as finite sets *)
   Definition pset (l : list (Z * Z)) : PS.t := fold_left (fun s p => PS.add p s) l PS.empty.
@@ -137,6 +150,13 @@ Open Scope string_scope.
     | [idsv; VZ outH; VZ outV; VF mx; VF mn] =>
         match as_LS idsv with
         | Some ids =>
+            let eids := if sid then match map_opt sid_to_eid_str ids with Some e => e | None => [] end else ids in
+            let zooms_ok := quadkey_check_zoom outH outV in
+            (* well-formed IDs whose horizontal part the code will expand: indices must be in the model's domain and the oracle must answer *)
+            let wf := flat_map (fun s => match parse_eid s with Some i => if ext_check_zoom (eh i) (ev i) then [i] else [] | None => [] end) eids in
+            if negb (forallb (fun i => int_ok (ef i)) wf) then bad_case
+            else if zooms_ok && negb (forallb (hkeys_ok oracle outH) wf) then bad_case
+            else
             let hk := o_hkeys oracle in
             let m := if sid then sid_to_qv hk ids outH outV mx mn else ext_to_qv hk ids outH outV mx mn in
             let og := if is_err obs then None else as_groups obs in
@@ -146,12 +166,12 @@ Open Scope string_scope.
                         | _, _ => false end in
             let mval := match m with Ok a => of_groups a | Err => VE VNil end in
             if (mx <? mn)%float then
-              (* reversed heights: an error as soon as there is an ID to convert *)
+              (* reversed heights must be an error for every NON-empty list. With an empty list no voxel is interpreted: the property (which quantifies
+                 over voxels) demands nothing, either outcome is accepted; corr still compares with the model (which returns Ok [] like the code) *)
               mkv corr (match ids with [] => true | _ => is_err obs end) "-" mval
             else if (mn <? mx)%float then
               match m, og with
               | Ok a, Some o =>
-                  let eids := if sid then match map_opt sid_to_eid_str ids with Some e => e | None => [] end else ids in
                   let allp := flat_map g_pairs o in
                   let basic := in_range outV (map snd allp) in
                   match dy_pair mx mn, parse_all eids with
@@ -163,9 +183,9 @@ Open Scope string_scope.
                   | _, _ => mkv corr basic "-" mval
                   end
               | Ok _, None => mkv corr false "-" mval        (* valid input, height range given: the conversion must succeed *)
-              | Err, _ => mkv corr true "-" mval             (* malformed input / zoom out of range: the subject of C15 *)
+              | Err, _ => mkv corr true "-" mval             (* malformed input / zoom out of range: the subject of C15; corr compares the flag *)
               end
-            else mkv corr true "-" mval                      (* equal heights (plain zoom change) or NaN: not this property *)
+            else mkv corr true "-" mval                      (* equal heights (plain zoom change) or NaN: not this property; corr still compares *)
         | None => bad_case
         end
     | _ => bad_case
@@ -176,16 +196,16 @@ Open Scope string_scope.
     | VL [VZ a; VZ b; VZ c; VZ d; VF e; VF f] => Some {| q_hz := a; q_key := b; q_vz := c; q_idx := d; q_max := e; q_min := f |}
     | _ => None
     end.
-  Definition ref_ids (oracle : oracle_t) (l : list qvid) (outH outV : Z) : option (list string) :=
-    match all_opt (map (fun q => match dy_pair (q_max q) (q_min q) with
-                                 | Some (dmn, dmx) =>
-                                     if range_ok_rev dmn dmx (q_vz q) (q_idx q) then
-                                       let '(lo, hi) := rev_ref (q_vz q) (q_idx q) outV dmn dmx in
-                                       let vs := map (vstr outV) (zrange lo hi) in
-                                       Some (flat_map (fun hs => map (fun v => hs ++ "/" ++ v) vs) (o_hids oracle (q_hz q) (q_key q) outH))
-                                     else None
-                                 | None => None end) l) with
-    | Some ll => Some (concat ll)
+  (* exact expectation of ONE element: None when the element is outside the domain of the reference (equal heights, non-finite or huge bounds,
+     |k| > 2^(vz+1)) *)
+  Definition ref_one (oracle : oracle_t) (outH outV : Z) (q : qvid) : option (list string) :=
+    match dy_pair (q_max q) (q_min q) with
+    | Some (dmn, dmx) =>
+        if range_ok_rev dmn dmx (q_vz q) (q_idx q) then
+          let '(lo, hi) := rev_ref (q_vz q) (q_idx q) outV dmn dmx in
+          let vs := map (vstr outV) (zrange lo hi) in
+          Some (flat_map (fun hs => map (fun v => hs ++ "/" ++ v) vs) (o_hids oracle (q_hz q) (q_key q) outH))
+        else None
     | None => None
     end.
   Definition band_qvids (l : list qvid) (outV : Z) : bool :=
@@ -194,6 +214,29 @@ Open Scope string_scope.
                       | _, _ => false end) l.
   (* sid = true: ConvertQuadkeysAndVerticalIDsToSpatialIDs, arguments [items; outputZoom], IDs in the notation z/f/x/y *)
   Definition to_sids (sid : bool) (l : list string) : option (list string) := if sid then map_opt eid_to_sid_str l else Some l.
+  (* an observed ID as (horizontal part "h/x/y", vertical zoom, vertical index) *)
+  Definition split_id (sid : bool) (s : string) : option (string * Z * Z) :=
+    match split s, sid with
+    | [h; x; y; v; f], false => match parse v, parse f with Some vz, Some i => Some (join [h; x; y], vz, i) | _, _ => None end
+    | [z; f; x; y], true => match parse z, parse f with Some vz, Some i => Some (join [z; x; y], vz, i) | _, _ => None end
+    | _, _ => None
+    end.
+  Definition smemb (s : string) (l : list string) : bool := existsb (String.eqb s) l.
+  (* fallback for the elements the reference does not cover: every ID that no in-domain element explains parses, carries the output zoom and the
+     horizontal part of one of those elements; and when a horizontal part belongs to a single element of the call, its indices are contiguous *)
+  Definition basic_rest (sid : bool) (oracle : oracle_t) (l outdom : list qvid) (outH outV : Z) (obs rest : list string) : bool :=
+    let hs_out := flat_map (fun q => o_hids oracle (q_hz q) (q_key q) outH) outdom in
+    let hs_all := flat_map (fun q => o_hids oracle (q_hz q) (q_key q) outH) l in
+    match all_opt (map (split_id sid) obs) with
+    | None => false
+    | Some po =>
+        forallb (fun s => match split_id sid s with
+                          | Some (hs, vz, _) => (vz =? outV)%Z && smemb hs hs_out
+                          | None => false end) rest &&
+        forallb (fun hs => if (1 <? Z.of_nat (List.length (filter (String.eqb hs) hs_all)))%Z then true
+                           else let vs := flat_map (fun t => let '(h, _, i) := t in if String.eqb h hs then [i] else []) po in
+                                contiguous vs) hs_out
+    end.
   Definition d_from_qv (sid : bool) (oracle : oracle_t) (args : list val) (obs : val) : verdict :=
     if is_refusal obs then bad_case else
     match (match args, sid with
@@ -203,6 +246,10 @@ Open Scope string_scope.
     | Some (lv, outH, outV) =>
         match all_opt (map as_qvid lv) with
         | Some l =>
+            let expanded := filter (fun q => quadkey_check_zoom (q_hz q) (q_vz q)) l in
+            if negb (forallb (fun q => int_ok (q_idx q)) l) then bad_case
+            else if ext_check_zoom outH outV && negb (forallb (fun q => hids_ok oracle outH (q_hz q) (q_key q)) expanded) then bad_case
+            else
             match (if sid then qv_to_sid (o_hids oracle) l outH else qv_to_ext (o_hids oracle) l outH outV) with
             | None => bad_case
             | Some m =>
@@ -215,15 +262,25 @@ Open Scope string_scope.
                 if existsb (fun q => (q_max q <? q_min q)%float) l then mkv corr (is_err obs) "-" mval
                 else match m, os with
                      | Ok a, Some o =>
-                         match (match ref_ids oracle l outH outV with Some r => to_sids sid r | None => None end) with
+                         (* element by element: in-domain elements must contribute exactly their whole reference run (both bounds of the cell);
+                            the others fall back to the basic check *)
+                         let refs := map (fun q => (q, ref_one oracle outH outV q)) l in
+                         let indom := flat_map (fun t => match snd t with Some r => r | None => [] end) refs in
+                         let outdom := flat_map (fun t => match snd t with Some _ => [] | None => [fst t] end) refs in
+                         match to_sids sid indom with
                          | Some r =>
-                             (* the observed set must be the WHOLE reference run of every element: both bounds of the cell's interval *)
-                             let prop := same_strings o r in
-                             mkv corr prop (if corr && negb prop && band_qvids l outV then "bit_rounding" else "-") mval
-                         | None => mkv corr true "-" mval     (* equal heights or a range outside the claimed domain *)
+                             let prop := match outdom with
+                                         | [] => same_strings o r          (* every element in the domain: the observed set is exactly the reference *)
+                                         | _ => forallb (fun s => smemb s o) r &&
+                                                basic_rest sid oracle l outdom outH outV o (filter (fun s => negb (smemb s r)) o)
+                                         end in
+                             let indom_q := flat_map (fun t => match snd t with Some _ => [fst t] | None => [] end) refs in
+                             mkv corr prop (if corr && negb prop && match outdom with [] => true | _ => false end && band_qvids indom_q outV
+                                            then "bit_rounding_reverse" else "-") mval
+                         | None => bad_case
                          end
                      | Ok _, None => mkv corr false "-" mval
-                     | Err, _ => mkv corr true "-" mval
+                     | Err, _ => mkv corr true "-" mval          (* zoom / quadkey / index errors: the subject of C15; corr compares the flag *)
                      end
             end
         | None => bad_case
